@@ -67,6 +67,7 @@ func c09(p *P) {
 	r.Rule("C09.R5", "checkpoint writer/reader agreement", 3)
 	r.Rule("C09.R6", "GetPowerTable: checkpoint + deltas of the certificates in between; range guards", 5)
 	r.Rule("C09.R7", "key constructors shared by readers and writers; GetRange order", 5)
+	p.include(c10, map[string]string{"C10.R1": "C09.R9", "C10.R2": "C09.R9b", "C10.R5": "C09.R9c"}, map[string]string{"C09.R9": "Put writes certificate, checkpoint, then the pointer (a reopened store sees a complete history)", "C09.R9b": "a store is created table-first, so that an interrupted creation can be repeated or opened", "C09.R9c": "head updated after the pointer"})
 	p.include(c04, map[string]string{"C04.R5": "C09.R8", "C04.R6": "C09.R8b"}, map[string]string{"C09.R8": "delta application (used by Put and GetPowerTable) rejects malformed deltas, works on a fresh map", "C09.R8b": "delta construction"})
 
 	writers := p.dsWriters()
